@@ -46,6 +46,9 @@ func (k *Case) runE2E() (out string) {
 	if strings.HasPrefix(k.E2E, "admin") {
 		return k.runE2EAdmin()
 	}
+	if k.E2E == "acmeacct" {
+		return k.runE2EAcmeAcct()
+	}
 	if k.Kind == "sshhost" || k.Kind == "sshuser" {
 		return k.runE2ESSH()
 	}
